@@ -58,6 +58,8 @@ def run(ctx, rep):
     rep.guarded("R12-VARKEY", lambda: r_varkey(sh, rep))
     rep.rule("R12-CONSTMAP", "constant folding to Data decides map-vs-list from the list's element type, not from its elements", floor=1)
     rep.guarded("R12-CONSTMAP", lambda: r_constmap(sh, rep))
+    rep.rule("R12-SITES", "three single-site clauses: the expect decoder skips a traversal only when *every* component is Data; each handler's schema definitions start from an empty table; the orphan-pair pruning records every dependent", floor=3)
+    rep.guarded("R12-SITES", lambda: r_sites12(sh, rep))
     rep.rule("R12-TOTAL", "no unreviewed panic site reachable from Parameter::validate", floor=2)
 
     def total():
@@ -346,3 +348,39 @@ def r_constmap(sh, rep):
                 decide.append(src)
     ok = ty is not None and len(decide) == 1 and re.search(r"\b%s\b" % re.escape(ty), decide[0]) and not (items and re.search(r"\b%s\b" % re.escape(items), decide[0]))
     rep.check(bool(ok), "R12-CONSTMAP", "ProtoList#map-iff-element-type-is-pair", sh.loc(GB, arm), "the map-vs-list decision `%s` must test the list's element type (binding `%s`) and not its elements (`%s`): an empty Pairs constant nested in a constant container is otherwise folded to an empty list, which `expect` and the blueprint schema both refuse" % (decide[0] if decide else "<none found>", ty, items), sample={"decision": decide[:1], "type_binding": ty})
+
+
+def r_sites12(sh, rep):
+    """(a) CodeGenerator::expect_type_assign may return its continuation without emitting checks only when there is nothing to
+    check: the component type is Data — for a type with several components, *all* of them (`.all(..)`), never `.any(..)`.
+    (b) Validator::create_validator_blueprint derives the schemas of one handler in a table of its own: the table is
+    rewritten at the end of each handler (pairs -> lists), and the `List<Pair>` = map detection of the next handler
+    needs to see the original Pair definitions.
+    (c) Definitions::prune_orphan_pairs removes a Pair definition when nothing uses it; `mark` must record every user of
+    a definition, not the first one only (the first may itself be pruned)."""
+    f = [fn for q, fn in all_fns(sh.file(GEN)) if q.endswith("CodeGenerator::expect_type_assign")]
+    if not f:
+        raise AnchorMissing("CodeGenerator::expect_type_assign")
+    shortcuts = []
+    for n in walk(f[0]["body"]):
+        if n["k"] == "If":
+            st = n["then"].get("stmts", [])
+            if len(st) == 1 and re.fullmatch(r"(return)?then;?", sh.nsrc(GEN, st[0])):
+                shortcuts.append(n)
+    bad = [sh.nsrc(GEN, n["cond"]) for n in shortcuts if ".any(" in sh.nsrc(GEN, n["cond"]) or "is_data()" not in sh.nsrc(GEN, n["cond"])]
+    rep.check(bool(shortcuts) and not bad, "R12-SITES", "expect_type_assign#shortcut-only-when-all-data", sh.loc(GEN, shortcuts[0]) if shortcuts else sh.loc(GEN, f[0]), "expect_type_assign returns its continuation without checks under `%s`: for a map with a typed key or value the typed side is then never checked, and the compiled `expect` accepts values the published schema rejects" % bad, sample={"shortcuts": len(shortcuts)})
+    VAL = "crates/aiken-project/src/blueprint/validator.rs"
+    g = find_method(sh.file(VAL), "Validator", "create_validator_blueprint")
+    rep.touched(VAL, "Validator::create_validator_blueprint")
+    takes = [i for i in g["sig"]["inputs"] if "Definitions" in (i.get("ty") or "")]
+    fresh = [n for n in walk(g["body"]) if n["k"] == "Local" and n.get("init") is not None and sh.nsrc(VAL, n["init"]) == "Definitions::new()"]
+    rep.check(not takes and len(fresh) == 1, "R12-SITES", "create_validator_blueprint#fresh-definitions-per-handler", sh.loc(VAL, g), "each handler must derive its schemas in a Definitions table created inside create_validator_blueprint (found %d parameter(s) of that type, %d fresh table(s)): a table shared between handlers has already had its Pair definitions rewritten when the next handler looks for `List<Pair>` maps" % (len(takes), len(fresh)))
+    h = find_method(sh.file(DEFS), "Definitions", "prune_orphan_pairs")
+    rep.touched(DEFS, "Definitions::prune_orphan_pairs")
+    ins = [n for n in walk(h["body"]) if n["k"] == "MethodCall" and n["m"] == "insert" and sh.nsrc(DEFS, n["recv"]) == "dependencies"]
+    ok = False
+    for n in walk(h["body"]):
+        if n["k"] == "If" and any(x is i for i in ins for x in walk(n["then"])):
+            c = n["cond"]
+            ok = c.get("k") == "LetCond"  # nothing but the lookup itself decides
+    rep.check(bool(ins) and ok, "R12-SITES", "prune_orphan_pairs#records-every-dependent", sh.loc(DEFS, ins[0]) if ins else sh.loc(DEFS, h), "the usage table must record every dependent of a referenced definition (the insert sits under a condition besides the lookup): a Pair whose first recorded user is itself pruned disappears while a surviving definition still refers to it")
